@@ -230,6 +230,7 @@ func main() {
 		dump     = flag.String("dump", "", "debug: dump descriptors of the function with this key")
 		noself   = flag.Bool("noselftest", false, "skip engine self-tests (debug only)")
 		manifest = flag.Bool("manifest", false, "write <verif>/MANIFEST.json from the registry")
+		names    = flag.Bool("names", false, "write checker/baseline_names.json (parameter names by position) from the current tree")
 		describe = flag.Bool("describe", false, "print what each registered property decides / does not decide (JSON)")
 	)
 	flag.Parse()
@@ -284,7 +285,7 @@ func main() {
 			os.Exit(2)
 		}
 		ids = []string{*prop}
-	} else if *dump == "" {
+	} else if *dump == "" && !*names {
 		fmt.Fprintln(os.Stderr, "need -property, -all or -dump")
 		os.Exit(2)
 	}
@@ -296,6 +297,28 @@ func main() {
 	if err != nil {
 		fmt.Fprintf(os.Stderr, "LOAD FAILURE: %v\n", err)
 		os.Exit(2)
+	}
+	if *names {
+		out := map[string][]string{}
+		for _, fn := range prog.Funcs {
+			var ns []string
+			for _, prm := range fn.Params {
+				ns = append(ns, prm.Name())
+			}
+			if len(ns) > 0 {
+				out[prog.FuncKey(fn)] = ns
+			}
+		}
+		b, _ := json.MarshalIndent(out, "", " ")
+		if err := os.WriteFile(filepath.Join(*verif, "checker", "baseline_names.json"), append(b, '\n'), 0o644); err != nil {
+			fmt.Fprintln(os.Stderr, err)
+			os.Exit(2)
+		}
+		fmt.Printf("%d functions\n", len(out))
+		return
+	}
+	if b, err := os.ReadFile(filepath.Join(*verif, "checker", "baseline_names.json")); err == nil {
+		_ = json.Unmarshal(b, &prog.Names)
 	}
 	if *dump != "" {
 		dumpFunc(prog, *dump)
